@@ -14,7 +14,7 @@ conflict checks.
 from __future__ import annotations
 
 import logging
-from dataclasses import dataclass
+from dataclasses import dataclass, field
 from enum import Enum
 from typing import TYPE_CHECKING, Any, Protocol, runtime_checkable
 
@@ -99,6 +99,9 @@ class _CommitLogEntry:
     version: int
     keys_written: frozenset[str]
     keys_read: frozenset[str]
+    # Value each written key had just before this commit applied (None = absent);
+    # lets older snapshots still be read after the store has moved on.
+    before_images: dict[str, Any] = field(default_factory=dict)
 
 
 # ---------------------------------------------------------------------------
@@ -162,6 +165,8 @@ class StorageTransaction:
 
         # Read from underlying store
         value = yield from self._manager._store.get(key)
+        if self._isolation != IsolationLevel.READ_COMMITTED:
+            value = self._manager._snapshot_value(self, key, value)
         return value
 
     def write(self, key: str, value: Any) -> Generator[float]:
@@ -199,7 +204,8 @@ class StorageTransaction:
             logger.debug("[tx-%d] Aborted due to conflict", self._tx_id)
             return False
 
-        # Apply writes
+        # Apply writes (remember what they replace, for readers on older snapshots)
+        before_images = {key: self._manager._store.get_sync(key) for key in self._write_set}
         for key, value in self._write_set.items():
             self._manager._store.put_sync(key, value)
 
@@ -210,6 +216,7 @@ class StorageTransaction:
             version=self._manager._version,
             keys_written=frozenset(self._write_set.keys()),
             keys_read=frozenset(self._read_set),
+            before_images=before_images,
         )
         self._manager._commit_log.append(entry)
 
@@ -397,6 +404,19 @@ class TransactionManager(Entity):
                     return True
 
         return False
+
+    def _snapshot_value(self, tx: StorageTransaction, key: str, current: Any) -> Any:
+        """Value of ``key`` as of the transaction's snapshot.
+
+        The store only holds the latest committed value. If a transaction that
+        committed after ``tx`` took its snapshot wrote the key, the snapshot value
+        is the before-image recorded by the first such commit; otherwise nothing
+        has changed since the snapshot and ``current`` is it.
+        """
+        for entry in self._commit_log:
+            if entry.version > tx._snapshot_version and key in entry.keys_written:
+                return entry.before_images.get(key)
+        return current
 
     def _record_duration(self, start_time_s: float) -> None:
         """Record transaction duration for stats."""
